@@ -399,6 +399,9 @@ def writer(rep, prog, A):
         elif im is not None and not (isinstance(im['_N'], ast.Constant) and im['_N'].value == 3):
             rep.violation('C10.2', 'Armorable.__str__', 'crc = %s' % shown_crc, 'the CRC-24 must be written as exactly three octets (leading zero octets kept)',
                           where=f.where, expected='b64encode(int_to_bytes(crc24(bytes(self)), 3))', found=shown_crc)
+        elif im is not None and not cm and (_calls_named(im['_C'], ('crc24',)) or isinstance(im['_C'], (ast.Name, ast.Attribute, ast.Constant))):
+            rep.violation('C10.2', 'Armorable.__str__', 'crc = %s' % shown_crc, 'the checksum must be crc24 of the whole binary export in one piece',
+                          where=f.where, expected='b64encode(int_to_bytes(crc24(bytes(self)), 3))', found=shown_crc)
         elif Y is None or im is None or not cm:
             raise AnalysisError('Armorable.__str__: checksum has an unmodelled shape: %s' % shown_crc[:200])
         else:
@@ -421,6 +424,10 @@ def writer(rep, prog, A):
                 want = [ast.Subscript(value=var, slice=ast.Constant(value=i), ctx=ast.Load()) for i in (0, 1)]
             elif isinstance(var, ast.Name) and T.show(coll) in (D, D + '.keys()', 'list(%s)' % D, 'iter(%s)' % D):
                 want = [var, ast.Subscript(value=T.parse_term(D), slice=var, ctx=ast.Load())]
+            if hm is not None and want is None and D in T.show(coll):
+                rep.violation('C10.7', 'Armorable.__str__', 'headers over %s' % T.show(coll), 'every supplied armor header is written, in the order supplied '
+                              '(no filter, dedup, sort or truncation of ascii_headers)', where=f.where, expected=D + '.items()', found=T.show(coll))
+                continue
             if hm is None or want is None or not all(itable[hm.group(i)][0] == 'V' for i in (1, 3)):
                 raise AnalysisError('Armorable.__str__: armor header lines have an unmodelled shape: %s' % T.show_pieces(hdr)[:200])
             got = [T.show(ast.Tuple(elts=[var, itable[hm.group(i)][1]], ctx=ast.Load())) for i in (1, 3)]     # each slot as a function of the loop variable(s)
@@ -585,6 +592,8 @@ def kind_checks(rep, prog):
     for table in cases.values():
         for bogus in ('ARMORED FILE', 'ARMORED BLOCK', 'MESSAGES', 'SIGNATURES', 'SIGN', 'MESS', 'MESSAGE, PART 1/2', 'PUBLIC', 'BLOCK'):
             table[bogus] = False
+        for other_case in ('Signature', 'message', 'Public Key Block', 'private key block'):      # labels are upper case: a match in another case is a different label
+            table[other_case] = False
     for cls, table in cases.items():
         f = prog.method('pgpy.pgp', cls, 'parse')
         rep.saw(fn=f)
@@ -609,6 +618,23 @@ def kind_checks(rep, prog):
                 kinds = sorted(set(s.raised.split('(')[0] for s in outs))
                 rep.check(kinds == ['ValueError'], 'C10.5', '%s.parse' % cls, 'reaction %s' % kinds, 'a wrong kind is reported as ValueError',
                           where=f.where, expected='ValueError', found=kinds, scenario=scen)
+    # what from_blob hands to parse is the caller's data, all of it and nothing else (no strip / slice / re-encoding of binary input)
+    A = prog.cls('pgpy.types', 'Armorable')
+    fb = A.methods.get('from_blob')
+    if fb is None:
+        raise AnalysisError('Armorable.from_blob vanished')
+    bp = _own_params(fb)[0]
+    for kind in ('bytes', 'bytearray', 'str'):
+        handed = set()
+        for s in Interp(prog, Scenario(args={bp: Sym(bp, types={kind}, nonnull=True)}, inline=noinline)).run(fb):
+            for c in s.calls:
+                if c[0].split('.')[-1] == 'parse' and c[1]:
+                    handed.add(c[1][0])
+        if not handed:
+            raise AnalysisError('Armorable.from_blob: no parse call found for %s input' % kind)
+        rep.check(handed == {bp}, 'C10.5', 'Armorable.from_blob', '%s input handed to parse as %s' % (kind, sorted(handed)),
+                  'the data given to from_blob reaches parse unchanged (binary data may begin or end with any octet, also white space)', where=fb.where,
+                  expected='bytearray(%s)' % bp, found=sorted(handed), scenario=kind)
     # a SIGNATURE block is a cleartext message only through its signed-message part
     f = prog.method('pgpy.pgp', 'PGPMessage', 'parse')
     ua = unarmor_call(prog, f)
@@ -704,6 +730,19 @@ def reader(rep, prog, A, writer_sep):
                 mandatory.nonempty.append(n)
         except regexast.Unsupported:
             pass
+    # the checksum line and the payload are part of EVERY word of the reader's armor language (decided on the expression): with an optional
+    # checksum group a block whose "=XXXX" line was damaged or cut off still matches and loads without any comparison - unless the
+    # code reports the missing checksum itself
+    for name, what in (('body', 'payload'), ('crc', 'checksum line')):
+        ok = name in mandatory
+        found = 'group is mandatory' if ok else 'group is optional in the armor expression'
+        if not ok and name in groups:
+            absent = [s for s in paths if _assumes_absent(s, name)]
+            ok = bool(absent) and all(s.raised is not None or _warns(s) for s in absent)
+            found += '; its absence is %s' % ('reported on every such path' if ok else 'not reported (%d paths)' % len(absent))
+        rep.check(ok, 'C10.6', 'Armorable.__armor_regex', '%s: %s' % (what, found),
+                  'every armored block the reader accepts has a %s (or its absence is reported): a block with a damaged or deleted checksum must not load silently' % what,
+                  where=A.where, expected='(?P<%s>...) outside any optional group / alternative' % name, found=found)
     paths = [s for s in paths if not _infeasible(s, mandatory)]
     crc_paths = [s for s in paths if any(_uses_group(c, 'crc') for c in s.calls)]
     rep.check(bool(crc_paths), 'C10.6', 'Armorable.ascii_unarmor', 'paths decoding the CRC line: %d' % len(crc_paths),
@@ -780,6 +819,28 @@ def reader(rep, prog, A, writer_sep):
         raise AnalysisError('Armorable.ascii_unarmor: no header line splitting found')
     rep.check(seps == {': '} and (writer_sep is None or seps == {writer_sep}), 'C10.7', 'Armorable.ascii_unarmor', 'header line separator %s' % sorted(map(repr, seps)),
               'header lines are split at ": " - the separator the writer uses', where=f.where, expected=repr(writer_sep or ': '), found=sorted(map(repr, seps)))
+    # ---- what the reader keeps of a header line is what stands there: key and value verbatim (the writer emits them verbatim, so any
+    #      normalisation on load - case, strip, filter, dedup - makes the object re-export a header that was never supplied)
+    kept = set(v for v in (_returned_entry(s, 'headers') for s in paths if s.raised is None) if v is not None)
+    if not kept:
+        raise AnalysisError('Armorable.ascii_unarmor: the headers entry of the result is never set')
+    for v in sorted(kept):
+        verdict, why = headers_verbatim(v)
+        if verdict is None:
+            raise AnalysisError('Armorable.ascii_unarmor: header mapping has an unmodelled shape: %s' % v[:200])
+        rep.check(verdict, 'C10.7', 'Armorable.ascii_unarmor', 'headers kept as %s' % (why or 'matched'),
+                  'armor header keys and values are stored exactly as they stand in the armor (no case change, strip, filter or merge)', where=f.where,
+                  expected='OrderedDict(re.findall(<key>: <value>, headers))', found=v[:300])
+    # ---- the label is handed on as matched (the kind checks compare it literally)
+    relabel = set(v for v in (_stored_entry(s, 'magic') for s in paths if s.raised is None) if v is not None)
+    bad = sorted(v for v in relabel if not (T.parse_term(v) is not None and _is_group_ref(T.parse_term(v), 'magic')))
+    rep.check(not bad, 'C10.5', 'Armorable.ascii_unarmor', 'label handed on %s' % (bad[:1] or 'as matched'),
+              'the armor label is reported as it stands in the BEGIN line (no normalisation before the kind checks see it)', where=f.where, found=bad[:2])
+    lab = group_lang(A, 'magic')
+    wit = lab.witness_not_in(regexast.Lang.of(r'[A-Z0-9 ,/]+')) if lab is not None else []
+    rep.check(lab is not None and wit is None, 'C10.5', 'Armorable.__armor_regex', 'label alphabet',
+              'armor labels are upper-case words (RFC 4880 6.2); a reader that also matches other spellings makes the kind checks case-dependent',
+              where=A.where, expected='[A-Z0-9 ,]+', found=None if wit is None else 'also matches %r' % regexast.show_word(wit))
     # ---- the tail label must equal the head label
     ok = False
     flat = list(regexast.strip_groups(tree))
@@ -801,6 +862,26 @@ class Mandatory(list):
     def __init__(self, it=()):
         list.__init__(self, it)
         self.nonempty = []
+
+
+def _assumes_absent(s, name):
+    """The path took the decision that the regex group `name` is None / empty."""
+    for t, val, sk in s.facts:
+        if sk is None:
+            continue
+        if sk[0] == 'cmp' and sk[1] in ('is', 'is not', '==', '!=') and sk[3] == 'None':
+            node = T.parse_term(sk[2])
+            if node is not None and _is_group_ref(node, name) and (val if sk[1] in ('is', '==') else not val):
+                return True
+        if sk[0] == 'expr' and val is False:
+            node = T.parse_term(sk[1])
+            if node is not None and _is_group_ref(node, name):
+                return True
+    return False
+
+
+def _warns(s):
+    return any(e[0] == 'call' and (e[1] in ('warnings.warn', 'warn') or e[1].split('.')[-1] in ('warn', 'warning', 'error')) for e in s.events)
 
 
 def _infeasible(s, mandatory):
@@ -862,15 +943,19 @@ def _is_header_line(s, ftext):
 
 
 def _crc_sides(l, r):
-    """One side is crc24(<decoded body group>), the other the integer decoded from the crc group."""
+    """One side IS crc24(<decoded body group>), the other IS the integer decoded from the crc group (no masking, slicing or other
+    operation on either side: the two 24-bit values are compared whole)."""
     for a, b in ((l, r), (r, l)):
         na, nb = T.parse_term(a), T.parse_term(b)
         if na is None or nb is None:
             continue
-        ca = _calls_named(na, ('crc24',))
-        if ca and all(refs_group(c, 'body') and _calls_named(c, ('b64decode',)) for c in ca) and not refs_group(na, 'crc') and \
-                refs_group(nb, 'crc') and _calls_named(nb, ('b64decode',)) and _calls_named(nb, ('bytes_to_int', 'from_bytes')) and \
-                not _calls_named(nb, ('crc24',)):
+        if not (isinstance(na, ast.Call) and _calls_named(na, ('crc24',)) and _calls_named(na, ('crc24',))[0] is na):
+            continue
+        conv = _calls_named(nb, ('bytes_to_int', 'from_bytes'))
+        if not (isinstance(nb, ast.Call) and conv and conv[0] is nb):
+            continue
+        if refs_group(na, 'body') and _calls_named(na, ('b64decode',)) and not refs_group(na, 'crc') and \
+                refs_group(nb, 'crc') and _calls_named(nb, ('b64decode',)) and not _calls_named(nb, ('crc24',)):
             return True
     return False
 
@@ -907,6 +992,85 @@ def _returned_entry(s, name):
             if isinstance(k, ast.Constant) and k.value == name:
                 return T.show(v)
     return None
+
+
+def _stored_entry(s, name):
+    """Rendered value stored into the entry `name` of the mapping the path returns, if the path stores one."""
+    if s.ret is None:
+        return None
+    rt = render(s.ret)
+    val = None
+    for path, vt, line, v in s.stores:
+        if path in ("%s['%s']" % (rt, name), '%s["%s"]' % (rt, name)):
+            val = vt
+    return val
+
+
+def _findall_on_headers(node):
+    """Is the term re.findall / re.finditer(<two-group pattern>, <headers group>, ..)?"""
+    if not (isinstance(node, ast.Call) and T.show(node.func) in ('re.findall',) and len(node.args) >= 2 and refs_group(node.args[1], 'headers')):
+        return False
+    pat = node.args[0]
+    if not (isinstance(pat, ast.Constant) and isinstance(pat.value, str)):
+        return False
+    try:
+        return regexast.parse(pat.value).state.groups == 3
+    except re.error:
+        return False
+
+
+def headers_verbatim(text):
+    """(True, None) if the term is a mapping built from the (key, value) pairs of the header-line matches unchanged; (False, why) if a
+    pair is transformed / filtered on the way; (None, None) if the shape is not understood."""
+    node = T.parse_term(text) if isinstance(text, str) else text
+    if node is None:
+        return None, None
+    if (isinstance(node, ast.Constant) and node.value is None) or _is_group_ref(node, 'headers'):
+        return True, None               # no header lines: the (absent) group itself
+    if isinstance(node, ast.IfExp):
+        a, b = headers_verbatim(node.body), headers_verbatim(node.orelse)
+        if a[0] is None or b[0] is None:
+            return None, None
+        return (a[0] and b[0]), (a[1] or b[1])
+    if isinstance(node, ast.DictComp) and len(node.generators) == 1:
+        g = node.generators[0]
+        if not _findall_on_headers(g.iter):
+            return None, None
+        if g.ifs:
+            return False, 'filtered pairs'
+        want = [T.show(e) for e in g.target.elts] if isinstance(g.target, ast.Tuple) and len(g.target.elts) == 2 else None
+        if want is None:
+            return None, None
+        return ([T.show(node.key), T.show(node.value)] == want), 'transformed %s: %s' % (T.show(node.key), T.show(node.value))
+    m = T.match_any(node, ['collections.OrderedDict(_F)', 'OrderedDict(_F)', 'dict(_F)'])
+    if m is None:
+        return None, None
+    F = m['_F']
+    while isinstance(F, ast.Call) and isinstance(F.func, ast.Name) and F.func.id in ('list', 'tuple', 'iter') and len(F.args) == 1:
+        F = F.args[0]
+    if _findall_on_headers(F):
+        return True, None
+    e = T.each(F)
+    if e is None or not _findall_on_headers(e[1]) or len(e[3]) != 1:
+        return None, None
+    var, coll, conds, elems = e
+    if conds:
+        return False, 'filtered pairs (%s)' % ', '.join(T.show(c) for c in conds)
+    elt = elems[0]
+    if isinstance(var, ast.Name):
+        want = [T.show(var)]
+        got = [T.show(elt)] if not isinstance(elt, ast.Tuple) else None
+        if got is None and isinstance(elt, ast.Tuple) and len(elt.elts) == 2:
+            want = ['%s[0]' % T.show(var), '%s[1]' % T.show(var)]
+            got = [T.show(x) for x in elt.elts]
+    elif isinstance(var, ast.Tuple) and len(var.elts) == 2 and isinstance(elt, ast.Tuple) and len(elt.elts) == 2:
+        want = [T.show(ast.Tuple(elts=[var, x], ctx=ast.Load())) for x in var.elts]
+        got = [T.show(ast.Tuple(elts=[var, x], ctx=ast.Load())) for x in elt.elts]
+    else:
+        return None, None
+    if got == want:
+        return True, None
+    return False, 'transformed pairs %s' % T.show(elt)
 
 
 def _pattern_separator(pat, flags):
